@@ -4,7 +4,7 @@ import itertools
 from props import readers, sfcf
 from props.readers import h_read  # noqa
 
-HARNESSES = dict(read=h_read, sfcf=sfcf.h_read)
+HARNESSES = dict(read=h_read, sfcf=sfcf.h_read, sfcf_multi=sfcf.h_multi)
 
 PROPERTY = 'C17'
 OPTS = dict(timeout=60000, maxpaths=200)
@@ -58,7 +58,11 @@ def jobs(tier, seed):
         J.append(dict(harness='sfcf', params=dict(layout=lay, names=names, req=['F_V0', 0, 0], perm=2, im=True, T=3, **R2)))
         for perm in (0, 5, 11):
             J.append(dict(harness='sfcf', params=dict(layout=lay, names=['f_A', 'f_1'], req=['f_A', 0, None], perm=perm, **R3)))
+        for keyed in (False, True):
+            J.append(dict(harness='sfcf_multi', params=dict(layout=lay, perm=7, keyed=keyed, **R2)))
         if lay != 'a':
+            for fo in ('lex', 'desc'):
+                J.append(dict(harness='sfcf', params=dict(layout=lay, names=['f_A', 'f_1'], req=['f_A', 0, None], perm=2, files=fo, reps=['r0', 'r1'], cfgs=[list(range(7, 13)), list(range(8, 14))])))
             J.append(dict(harness='sfcf', params=dict(layout=lay, names=['f_A', 'f_1'], req=['f_A', 0, None], perm=4, files=True, reps=['r0', 'r1'], cfgs=[list(range(1, 11)), list(range(1, 12))])))
     return J
 
